@@ -147,9 +147,6 @@ Qed.
 
 (* ------------------------------------------------------------------------------------ *)
 (* the reference: first line / what follows it *)
-Definition first_line (t : list Z) : list Z := ztake (index_of 10 t) t.
-Definition after_line (t : list Z) : list Z := zdrop (index_of 10 t + 1) t.
-
 Lemma split_lines_unfold : forall t,
   split_lines t =
   first_line t :: (if index_of 10 t <? zlen t then split_lines (after_line t) else []).
@@ -204,13 +201,6 @@ Proof. intros. unfold expected_fast, expected, expected_line. apply take_pad_nth
 
 (* split_lines really is the split at byte 10: joining the pieces with 10 gives the text
    back and no piece contains a 10. *)
-Fixpoint join_nl (ls : list (list Z)) : list Z :=
-  match ls with
-  | [] => []
-  | [l] => l
-  | l :: ls' => l ++ 10 :: join_nl ls'
-  end.
-
 Lemma split_lines_nonempty : forall t, split_lines t <> [].
 Proof. intros t. rewrite split_lines_unfold. discriminate. Qed.
 
@@ -268,9 +258,6 @@ Proof.
   - apply Z.eqb_eq in E. exfalso. apply H. left. exact E.
   - rewrite IH by (intros H'; apply H; right; exact H'). reflexivity.
 Qed.
-
-Definition unlines_with (ls : list (list Z)) (last : list Z) : list Z :=
-  concat (map (fun l => l ++ [10]) ls) ++ last.
 
 Lemma split_lines_unlines : forall ls last,
   Forall (fun l => ~ In 10 l) ls -> ~ In 10 last ->
